@@ -8,3 +8,11 @@ import TypedpyModel.Props.C05
 #print axioms Typedpy.C05.optional_survives
 #print axioms Typedpy.C05.class_round_trip_example
 #print axioms Typedpy.C05.set_map_round_trip_example
+#print axioms Typedpy.C05.xfield_round_trip_partial
+#print axioms Typedpy.C05.xclass_round_trip_partial
+#print axioms Typedpy.C05.decimal_round_trip_lossy
+#print axioms Typedpy.C05.xclass_round_trip_example
+#print axioms Typedpy.C05.anyof_round_trip_partial
+#print axioms Typedpy.C05.anyof_round_trip_example
+#print axioms Typedpy.C05.class_round_trip_extras_partial
+#print axioms Typedpy.C05.class_round_trip_extras_example
